@@ -39,6 +39,7 @@ from .values import (
     CallbackVal,
     DObj,
     ElemRef,
+    ExtObj,
     Func,
     IntSeq,
     LObj,
@@ -375,6 +376,8 @@ def call_method(ex, recv, name, args, kwargs, node=None):
             return dict_method(ex, recv, ho, name, args, kwargs)
         if isinstance(ho, MObj):
             return map_method(ex, recv, ho, name, args, kwargs)
+        if isinstance(ho, ExtObj):
+            return ho.ext_method(ex, recv, name, args, kwargs)
     if isinstance(recv, (Sym, bytes, bytearray)) and ex.kind_of(recv) == 'bytes':
         return bytes_method(ex, recv, name, args, kwargs)
     if isinstance(recv, Sym) and recv.k in ('int', 'bool'):
@@ -411,6 +414,13 @@ def bytes_method(ex, recv, name, args, kwargs):
     if name == 'join':
         items = ex.concrete_iter(args[0])
         if items is None:
+            seq = ex.as_symseq(args[0])
+            if seq is not None and seq.k == ('seq', 'bytes'):
+                # join over a symbolic-length list of byte strings: an uninterpreted pure function of
+                # (separator, list) -- only determinism is known about the result
+                ex.abstraction_used = True
+                jf = z3.Function('pyvc_bytes_join', IntSeq, z3.SeqSort(IntSeq), IntSeq)
+                return mk_bytes(jf(zbytes(ex.as_bytes_value(recv)), seq.t))
             raise Unsupported('join over symbolic iterable')
         parts = []
         sep = ex.as_bytes_value(recv)
@@ -497,6 +507,14 @@ def bytearray_method(ex, ref, ho, name, args, kwargs):
 
 def list_method(ex, ref, ho, name, args, kwargs):
     w = lambda: ex.wobj(ref)
+    if ho.flavor == 'set':
+        if name == 'intersection' and len(args) == 1 and ho.items is not None:
+            out = []
+            for x in ho.items:
+                if ex.branch(ex.truth(M.contains(ex, args[0], ex.wrap(x, ref)))):
+                    out.append(x)
+            return ex.alloc(LObj(out, flavor='set'))
+        raise Unsupported(f'set.{name} on a set with symbolic members')
     if name == 'append':
         if ho.items is not None:
             w().items.append(args[0])
@@ -1218,8 +1236,12 @@ def m_set(ex, *args):
     if not args:
         return frozenset()
     items = ex.concrete_iter(args[0])
-    if items is None or not all(ex.is_hashable_conc(x) for x in items):
-        raise Unsupported('set() of symbolic members')
+    if items is None:
+        raise Unsupported('set() of an iterable of symbolic length')
+    if not all(ex.is_hashable_conc(x) for x in items):
+        # members with symbolic values: a concrete spine of members that may coincide (flavor 'set':
+        # membership, iteration, truth value and intersection are exact; len() is refused)
+        return ex.alloc(LObj([M.unwrap_key(x) for x in items], flavor='set'))
     return frozenset(items)
 
 
@@ -1233,7 +1255,15 @@ def m_enumerate(ex, it, start=0):
 def m_zip(ex, *its, **kw):
     lists = [ex.concrete_iter(i) for i in its]
     if any(l is None for l in lists):
-        raise Unsupported('zip over symbolic iterable')
+        if kw:
+            raise Unsupported('zip(strict=) over symbolic iterable')
+        seqs = [ex.as_symseq(i) for i in its]
+        if any(q is None for q in seqs):
+            raise Unsupported('zip over a mix of concrete and symbolic iterables')
+        from .engine import SymZip
+
+        # only usable as the iterable of a `for` statement with a loop invariant (engine.st_For)
+        return SymZip(seqs)
     return ConcIter([tuple(t) for t in zip(*lists)])
 
 
